@@ -10,7 +10,8 @@
    observation:  res=<r>,..;ids=<i>,..;sz=<n>,..;next=<n>
      res/ids in order of the Begin tokens; r = nil|timeout|err|run; id = '-' for mode a
      sz = waiter-table size at every snapshot token, then at the end. *)
-From PV Require Import Base.Text Model.Ping Model.PingFrame Model.PingScript.
+From PV Require Import Base.Text Model.Ping Model.PingFrame Model.PingScript Model.PingKnown.
+From PV Require Import Spec.PingRFC Spec.PingSpec.
 Open Scope string_scope.
 Open Scope N_scope.
 
@@ -76,11 +77,93 @@ Definition obs_of (fix24 : bool) (n0 : N) (ts : list tok) : string :=
   | Fuel => "fuel"
   end.
 
-(* recorded defect classes (narrow keys, see known_findings.txt) *)
+(* ---- spec column: the reference machine of Spec/PingSpec.v driven by the RFC classifier of
+   Spec/PingRFC.v; identifiers and next-id are taken from the model (the spec does not say how
+   identifiers are chosen) ---- *)
+Fixpoint srun (st : sstate) (es : list sevent) : option sstate :=
+  match es with
+  | [] => Some st
+  | e :: r => match sstep st e with Some st' => srun st' r | None => None end
+  end.
+
+Definition sevents_of (s : state) (t : tok) : list sevent :=
+  match t with
+  | TBegin p ok _ => [SBegin p (next s) ok]
+  | TFrame f => [match rfc_reply_id f with Some i => SReply i | None => SOther end]
+  | TWait p => [SEnd p]
+  | TEnd p => [SEnd p]
+  | TTimeout _ => []
+  | TSnap => []
+  end.
+
+Fixpoint spec_script (s : state) (st : sstate) (ts : list tok) : res (state * sstate * list nat) :=
+  match ts with
+  | [] => Ok (s, st, [])
+  | t :: r =>
+      (evs <- events_of parse_notify s t ;;
+       s' <- run FIX24 s evs ;;
+       match srun st (sevents_of s t) with
+       | None => Err EOther
+       | Some st' =>
+           '(sf, stf, sizes) <- spec_script s' st' r ;;
+           Ok (sf, stf, match t with TSnap => entries st' :: sizes | _ => sizes end)
+       end)%res
+  end.
+
+Definition show_outcome (o : option call) : string :=
+  match o with
+  | Some c => match c_out c with
+              | Some ONil => "nil" | Some OTimeout => "timeout" | Some OErr => "err" | None => "run"
+              end
+  | None => "run"
+  end.
+
+Definition spec_obs (n0 : N) (ts : list tok) : string :=
+  match spec_script (init n0) [] ts with
+  | Ok (s, st, sizes) =>
+      let bs := begun ts in
+      "res=" ++ join "," (map (fun b : pid * bool => show_outcome (sget st (fst b))) bs)
+      ++ ";ids=" ++ join "," (map (fun b : pid * bool =>
+                                     if snd b then match id_of s (fst b) with
+                                                   | Some i => dec_of_N i
+                                                   | None => "?"
+                                                   end
+                                     else "-") bs)
+      ++ ";sz=" ++ join "," (map dec_of_nat (sizes ++ [entries st])%list)
+      ++ ";next=" ++ dec_of_N (next s)
+  | Err _ => "illformed"
+  | Panic => "panic"
+  | Fuel => "fuel"
+  end.
+
+(* ---- recorded defect classes (narrow keys, see known_findings.txt) ---- *)
 Definition has_failed_begin (ts : list tok) : bool :=
   existsb (fun t => match t with TBegin _ false _ => true | _ => false end) ts.
+
+Definition res_opt_eqb (a : res (option N)) (b : option N) : bool :=
+  match a, b with
+  | Ok (Some x), Some y => x =? y
+  | Ok None, None => true
+  | _, _ => false
+  end.
+
+(* key of the first frame on which Parse and the RFC reading disagree *)
+Fixpoint frame_key (ts : list tok) : string :=
+  match ts with
+  | [] => "-"
+  | TFrame f :: r =>
+      if res_opt_eqb (parse_notify f) (rfc_reply_id f) then frame_key r
+      else if known_C19_iphdr f then "echo_reply_bad_ip_header"
+      else if known_C19_family f then "echo_reply_wrong_icmp_family"
+      else if known_C19_totallen f then "echo_reply_beyond_ip4_totallen"
+      else "unclassified_frame_divergence"
+  | _ :: r => frame_key r
+  end.
+
 Definition key_of (ts : list tok) : string :=
-  if negb FIX24 && has_failed_begin ts then "ping_send_fail_leaks_waiter" else "-".
+  let fk := frame_key ts in
+  if negb (String.eqb fk "-") then fk
+  else if negb FIX24 && has_failed_begin ts then "ping_send_fail_leaks_waiter" else "-".
 
 Definition dispatch (kind : string) (args : list string) : string :=
   if String.eqb kind "scn" then
@@ -88,7 +171,7 @@ Definition dispatch (kind : string) (args : list string) : string :=
     | n :: ws =>
         match N_of_dec n, parse_toks ws with
         | Some n0, Some ts =>
-            if n0 <? 65536 then out3 (obs_of FIX24 n0 ts) "-" (key_of ts) else BADARGS
+            if n0 <? 65536 then out3 (obs_of FIX24 n0 ts) (spec_obs n0 ts) (key_of ts) else BADARGS
         | _, _ => BADARGS
         end
     | _ => BADARGS
